@@ -254,10 +254,11 @@ func clipStr(s string, n int) string {
 // result must be right and error-free. A reader that keeps its iterator across
 // a transient I/O error is exactly what CockroachDB's retry loops do.
 type Survivor struct {
-	it      *pebble.Iterator
-	m       *model.Iter
-	last    string
-	errored []string // seek keys whose operation failed under faults
+	it          *pebble.Iterator
+	m           *model.Iter
+	last        string
+	errored     []string // seek keys whose operation failed under faults
+	lastErrored bool     // the previous operation returned an error
 }
 
 // SurvivorOpen opens the survivor iterator on the current state.
@@ -285,6 +286,8 @@ func (r *Run) SurvivorSeeks(s *Survivor, n int, faultsOn bool) {
 		if !faultsOn && len(s.errored) > 0 {
 			// first of all go back to where an operation failed
 			k, s.errored = s.errored[0], s.errored[1:]
+		} else if s.lastErrored && s.last != "" && r.rng.IntN(4) != 0 {
+			k = s.last // retry right away what just failed, as a caller would
 		} else if s.last != "" && r.rng.IntN(3) == 0 {
 			k = s.last // re-seek where an earlier seek (possibly a failed one) went
 		}
@@ -336,7 +339,9 @@ func (r *Run) SurvivorSeeks(s *Survivor, n int, faultsOn bool) {
 			r.count("survivor_ops_compared", 1)
 			return true
 		}
-		if !check(op, got, exp, ok) || r.failed {
+		okNow := check(op, got, exp, ok)
+		s.lastErrored = !okNow && !r.failed
+		if !okNow || r.failed {
 			continue
 		}
 		if !got {
